@@ -135,7 +135,7 @@ namespace C13
 
     // type-0 -> type-1 conversion of matrices (SynchMatrix): a blocked matrix whose blocks are a_ij * B (B a fixed 2x2 block) must
     // convert to the scalar type-1 matrix (x) B entry by entry - the exchange of blocked values against the exchange of scalars
-    double blk_t1_err = 0.0, t1_max = 0.0;
+    double blk_t1_err = 0.0, t1_max = 0.0, blkv_sync_err = 0.0, blkv_max = 0.0, blkv_dot = 0.0, blkv_dot_ref = 0.0, blkv_norm = 0.0, blkv_maxabs = 0.0, blkv_maxabs_ref = 0.0;
     {
       typedef LAFEM::SparseMatrixBCSR<DataType, IndexType, 2, 2> LMB; typedef LAFEM::DenseVectorBlocked<DataType, IndexType, 2> LVB; typedef typename SystemLevelType::SystemMirror MirT;
       const auto& la = lvl.matrix_sys.local(); const Index nloc = la.rows();
@@ -148,6 +148,20 @@ namespace C13
       double em = 0.0, am = 0.0;
       for(Index k = 0; k < t1a.used_elements(); ++k) { am = std::max(am, std::fabs(double(t1a.val()[k]))); for(int i = 0; i < 2; ++i) for(int j = 0; j < 2; ++j) em = std::max(em, std::fabs(double(t1b.val()[k][i][j]) - double(t1a.val()[k]) * B[i][j])); }
       comm.allreduce(&em, &blk_t1_err, std::size_t(1), Dist::op_max); comm.allreduce(&am, &t1_max, std::size_t(1), Dist::op_max);
+      // blocked vectors over the real transport: v = (r, -0.5 r) for the local (type-0) rhs contributions r; sync_0, dot, norm2 and max_abs_element
+      // through the blocked gate against the scalar ones
+      {
+        GlobalSystemVector s0 = lvl.matrix_sys.create_vector_r(); s0.format();
+        { Assembly::Common::ForceFunctional<decltype(sol_func)> fu(sol_func);
+          Assembly::assemble_linear_functional_vector(the_domain_level.domain_asm, s0.local(), fu, the_domain_level.space, cubature); }
+        Global::Vector<LVB, MirT> vb(&gate_b, nloc);
+        for(Index i = 0; i < nloc; ++i) { Tiny::Vector<DataType, 2> t; t[0] = s0.local()(i); t[1] = -0.5 * s0.local()(i); vb.local()(i, t); }
+        vb.sync_0(); s0.sync_0();
+        double e2 = 0.0, m2 = 0.0;
+        for(Index i = 0; i < nloc; ++i) { const double r = s0.local()(i); const auto t = vb.local()(i); m2 = std::max(m2, std::fabs(r)); e2 = std::max(e2, std::max(std::fabs(double(t[0]) - r), std::fabs(double(t[1]) + 0.5 * r))); }
+        comm.allreduce(&e2, &blkv_sync_err, std::size_t(1), Dist::op_max); comm.allreduce(&m2, &blkv_max, std::size_t(1), Dist::op_max);
+        blkv_dot = vb.dot(vb); blkv_dot_ref = 1.25 * s0.dot(s0); blkv_norm = vb.norm2(); blkv_maxabs = vb.max_abs_element(); blkv_maxabs_ref = s0.max_abs_element();
+      }
     }
 
     lvl.filter_sys.filter_sol(vec_sol); lvl.filter_sys.filter_rhs(vec_rhs);
@@ -181,9 +195,9 @@ namespace C13
     {
       std::printf("C13JSON {\"ranks\":%d,\"element\":\"%s\",\"num_dofs\":%llu,\"levels_physical\":%llu,\"levels_virtual\":%llu,\"status\":\"%s\",\"iters\":%d,"
         "\"rhs_norm_unfiltered\":%.17g,\"int_norm\":%.17g,\"dot_int_rhs\":%.17g,\"aint_norm\":%.17g,\"energy\":%.17g,\"maxabs\":%.17g,\"aint_max\":%.17g,\"at_diff\":%.17g,\"at4_diff\":%.17g,\"a4_diff\":%.17g,\"t0_norm\":%.17g,\"rhs_norm\":%.17g,"
-        "\"join_norm\":%.17g,\"join_norm2\":%.17g,\"int_norm_after_join\":%.17g,\"aint_norm_after_join\":%.17g,\"split_err\":%.17g,\"blk_t1_err\":%.17g,\"t1_max\":%.17g,\"p0_dofs\":%llu,\"p0_dot\":%.17g,\"p0_norm\":%.17g,\"p0_norm_async\":%.17g,\"p0_max\":%.17g,\"def_init\":%.17g,\"def_final\":%.17g,\"true_res\":%.17g,\"sol_norm\":%.17g,\"h0_err\":%.17g,\"h1_err\":%.17g}\n",
+        "\"join_norm\":%.17g,\"join_norm2\":%.17g,\"int_norm_after_join\":%.17g,\"aint_norm_after_join\":%.17g,\"split_err\":%.17g,\"blk_t1_err\":%.17g,\"t1_max\":%.17g,\"blkv_sync_err\":%.17g,\"blkv_max\":%.17g,\"blkv_dot\":%.17g,\"blkv_dot_ref\":%.17g,\"blkv_norm\":%.17g,\"blkv_maxabs\":%.17g,\"blkv_maxabs_ref\":%.17g,\"p0_dofs\":%llu,\"p0_dot\":%.17g,\"p0_norm\":%.17g,\"p0_norm_async\":%.17g,\"p0_max\":%.17g,\"def_init\":%.17g,\"def_final\":%.17g,\"true_res\":%.17g,\"sol_norm\":%.17g,\"h0_err\":%.17g,\"h1_err\":%.17g}\n",
         comm.size(), ename, (unsigned long long)num_dofs, (unsigned long long)domain.size_physical(), (unsigned long long)domain.size_virtual(), stringify(result).c_str(), iters,
-        rhs_norm_unfiltered, int_norm, dot_int_rhs, aint_norm, energy, maxabs, aint_max, at_diff, at4_diff, a4_diff, t0_norm, rhs_norm, join_norm, join_norm2, int_norm_after_join, aint_norm_after_join, split_err, blk_t1_err, t1_max, (unsigned long long)p0_dofs, p0_dot, p0_norm, p0_norm_async, p0_max, def_init, def_final, true_res, sol_norm, std::sqrt((double)errors.norm_h0_sqr), std::sqrt((double)errors.norm_h1_sqr));
+        rhs_norm_unfiltered, int_norm, dot_int_rhs, aint_norm, energy, maxabs, aint_max, at_diff, at4_diff, a4_diff, t0_norm, rhs_norm, join_norm, join_norm2, int_norm_after_join, aint_norm_after_join, split_err, blk_t1_err, t1_max, blkv_sync_err, blkv_max, blkv_dot, blkv_dot_ref, blkv_norm, blkv_maxabs, blkv_maxabs_ref, (unsigned long long)p0_dofs, p0_dot, p0_norm, p0_norm_async, p0_max, def_init, def_final, true_res, sol_norm, std::sqrt((double)errors.norm_h0_sqr), std::sqrt((double)errors.norm_h1_sqr));
       std::printf("C13LEVELS desired [%s] chosen [%s]\n", domain.format_desired_levels().c_str(), domain.format_chosen_levels().c_str());
       std::printf("C13INFO %s\n", domain.get_chosen_parti_info().c_str());
       std::fflush(stdout);
